@@ -10,7 +10,7 @@ open JanetModel.Thread JanetModel.Props.C08
 abbrev cfg : Cfg :=
   { requeue := Gen.Thread.requeueOnNoReader, requeueHead := Gen.Thread.requeueAtHead,
     redispatch := Gen.Thread.redispatchToNext, checkSched := Gen.Thread.cbChecksSchedId,
-    forwardOwnSched := Gen.Thread.forwardOwnSchedId }
+    forwardOwnSched := Gen.Thread.forwardOwnSchedId, resumeBumps := Gen.Thread.loopBumpsSchedAtResume }
 abbrev tcfg : TCfg := { completionAfterBody := Gen.Thread.completionAfterBody }
 abbrev rcfg : RCfg :=
   { increfBeforeSend := Gen.Thread.increfBeforeSend, recvKnownDecref := Gen.Thread.unmarshalKnownTestIsAbsent }
@@ -23,6 +23,32 @@ theorem forward_own_sched_id : cfg.forwardOwnSched = true := by decide
 
 theorem exactly_once_current (limit : Nat) (acts : List Act) : Conserved (run cfg acts (init limit)) :=
   exactly_once cfg (by decide) (by decide) limit acts
+
+/-- the part of the model that is not parametrised - run queue, wait discipline, one-event-at-a-time pipe - has the shape of the
+    current source: ev/take schedules the calling fiber with a directly obtained item and awaits; a parked ev/give awaits;
+    janet_schedule bumps `sched_id` and pushes at the TAIL of `janet_vm.spawn`; janet_loop1 pops at the head and skips a task
+    whose `expected_sched_id` is not the fiber's; the self pipe is read one event per read(), in order, until it is empty;
+    a pending entry carries the waiting fiber's current `sched_id`; the accepting callback schedules the fiber -/
+theorem runqueue_shape :
+    Gen.Thread.takeSchedulesSelf = true ∧ Gen.Thread.giveAwaitsWhenParked = true ∧ Gen.Thread.scheduleBumpsPushesTail = true ∧
+    Gen.Thread.loopPopsHeadChecksExpected = true ∧ Gen.Thread.selfpipeOneEventPerReadUntilEmpty = true ∧
+    Gen.Thread.pendingCarriesCurrentSchedId = true ∧ Gen.Thread.cbSchedulesFiber = true := by decide
+
+/-- per-sender order for the configuration of the current source (holds for every `Cfg`; the obligation here is
+    `runqueue_shape` + the correspondence of `jm_c08` with the implementation on burst histories) -/
+theorem per_sender_order_current (limit : Nat) (acts : List Act) (hclean : (run cfg acts (init limit)).abandons = 0)
+    (tag : Item → Nat) (htag : ∀ f x, Ev.gave f x ∈ (run cfg acts (init limit)).log → tag x = f) (sender receiver : Nat) :
+    ((gotSeq receiver (run cfg acts (init limit)).log).filter (fun x => tag x == sender)).Sublist
+      (gaveBy sender (run cfg acts (init limit)).log) :=
+  have _ := runqueue_shape
+  per_sender_order cfg limit acts hclean tag htag sender receiver
+
+theorem exactly_once_resumed_current (limit : Nat) (acts : List Act) (x : Item) :
+    let s := run cfg acts (init limit)
+    (gaveSeq s.log).countP (· == x) =
+      s.items.countP (· == x) + s.flight.countP (fun m => m.item == some x) + s.runq.countP (fun k => k.item == some x) +
+        (gotAll s.log).countP (fun d => d.2 == x) + s.dropped.countP (fun d => d.2 == x) :=
+  exactly_once_resumed cfg (by decide) (by decide) limit acts x
 
 theorem thread_returns_after_body_current (n : Nat) (acts : List TAct) :
     let s := trun tcfg acts { bodyLeft := n }
